@@ -382,6 +382,7 @@ RULES = {
     "C06": "generated histories of expect/always/never/call/mode/tally over 4 functions (lengths 0-40, 95-105 and 195-205 pending), plus every history of <= 4 ops over two functions; non-trivial = history contains at least one call; distinct by history text",
     "C07": "as C06, stressing too few / too many calls, times(0), calls after never, declarations after always/never, three modes; distinct by history text",
     "C08": "generated trees with suite/context fixtures x 3 modes; the event log (pid, phase, name) is compared with the model's event list; distinct by scenario text",
+    "C09": "generated test libraries (1-5 contexts incl. the default one, 1,2,5,23,99,100,101 (thorough also 199-201) tests, names sharing prefixes, some with a failing test) whose tests append their own name to a log; per library: no pattern, exact, *:*, ctx:*, *:name, c*:n*, prefix*, *suffix, patterns matching nothing, patterns constructed to match exactly one test, patterns without a colon; several libraries on one command line each with or without its own pattern and a missing library at random positions; reporter options none/--xml/--libxml2/-s/--quiet; discovery of every library with --no-run --verbose; 1500 (20000) random (pattern, string) pairs over {a,b,_,*} against fnmatch(3); non-trivial = runs with a pattern, glob pairs containing '*'; distinct by command line",
     "C10": "expression texts and string operands over the alphabet {%,s,d,n,digits,backslash,quote,space,a}, integers from the C05 boundary set, every constraint kind, all texts of length <= 3 (4) over {%,s,a}; only failing checks are kept (a message is shown); distinct by probe text",
     "C13": "generated scenarios run forked, CGREEN_NO_FORK and run_single_test; per-test credits and messages compared across modes and with the model; distinct by scenario text",
     "C17": "C01 scenarios under all reporter configurations; counts recovered from each native format and compared pairwise; distinct by scenario text",
